@@ -23,13 +23,13 @@ EXTENDS Integers, FiniteSets, Sequences, TLC
 ReqDom ==
   [ line    |-> {"ok", "post", "http10", "two-parts", "fragment"},
     host    |-> {"ok", "missing", "dup", "badport"},
-    upgrade |-> {"ok", "ok-mixedcase", "ok-in-list", "missing", "other"},
+    upgrade |-> {"ok", "ok-mixedcase", "ok-in-list", "missing", "other", "superstring"},      \* "websocket2", "xwebsocket": not the token
     conn    |-> {"ok", "ok-in-list", "missing", "other"},
     version |-> {"ok", "ok-8", "unsupported", "missing", "dup", "nonint"},
     key     |-> {"ok", "missing", "dup", "short", "badpad", "badchar"},
     origin  |-> {"ok-absent", "ok-allowed", "notallowed", "allowed-as-prefix", "null", "dup", "unparsable"},
     protos  |-> {"ok-none", "ok-list", "dup"},
-    exts    |-> {"ok-none", "ok-deflate", "ok-unknown", "dup"},
+    exts    |-> {"ok-none", "ok-deflate", "ok-unknown", "dup", "emptyparam"},     \* "..; param=" (empty value): the offer is invalid; either declined or 400
     onconn  |-> {"ok-none", "ok-listed", "unlisted", "deny", "raises"} ]
 ReqFeatures == DOMAIN ReqDom
 IsOk(v) == v = "ok" \/ (Len(v) > 2 /\ SubSeq(v, 1, 3) = "ok-")
@@ -50,6 +50,8 @@ ServerOpens(r, cfg) ==
   /\ ~cfg.full
   /\ OnConnOk(r.onconn, r.protos)
 
+\* an invalid extension offer may be declined (handshake completes without it) or refused: both conform
+EitherExts(r) == r.exts = "emptyparam"
 \* every case with at most two faulty features (all other features "ok"/first benign value)
 Base == [line |-> "ok", host |-> "ok", upgrade |-> "ok", conn |-> "ok", version |-> "ok", key |-> "ok",
          origin |-> "ok-absent", protos |-> "ok-none", exts |-> "ok-none", onconn |-> "ok-none"]
@@ -64,11 +66,11 @@ ReqTable == {r \in ReqCases : WellTyped(r)}
 \* ---- response features (client side)
 RespDom ==
   [ status  |-> {"ok", "200", "404", "malformed"},
-    upgrade |-> {"ok", "ok-mixedcase", "missing", "other"},
+    upgrade |-> {"ok", "ok-mixedcase", "missing", "other", "superstring"},
     conn    |-> {"ok", "missing", "other"},
     accept  |-> {"ok", "missing", "dup", "wrong", "other-key"},
     proto   |-> {"ok-none", "ok-requested", "notrequested", "substring-of-requested", "dup"},
-    exts    |-> {"ok-none", "unknown"} ]
+    exts    |-> {"ok-none", "unknown", "emptyparam"} ]
 RespFeatures == DOMAIN RespDom
 ClientOpens(p) == \A f \in RespFeatures : IsOk(p[f])
 RBase == [status |-> "ok", upgrade |-> "ok", conn |-> "ok", accept |-> "ok", proto |-> "ok-none", exts |-> "ok-none"]
